@@ -628,62 +628,77 @@ def setIfFlag (st : St) (b : Bool) : St :=
 def ifFlag (st : St) : Bool :=
   match assocGet st.env.temp ifSuccess with | some v => v.truthy | none => false
 
+/-- the state `mk_temp_var` leaves: the chain flag exists -/
+def withFlag (st : St) : St := if assocHas st.env.temp ifSuccess then st else setIfFlag st false
+
+/-- the truth of the condition of IF / ELIF (ELSE counts as true) -/
+def ifCond (ctx : Ctx) (pos : Pos) (name : Str) (arg : Option Str) (st : St) : R Bool :=
+  if name != "ELSE".toList then evalIn ctx pos st (arg.getD []) >>= fun v => .ok v.truthy
+  else .ok true
+
+/-- what the arm does once its condition is known: IF resets the chain flag; an arm is skipped when the flag is
+    set or its condition is false; otherwise it sets the flag and runs its body -/
+def ifDecide (name : Str) (st : St) (cond : Bool) : BlockAct :=
+  let flag := ifFlag st
+  let st := if name == "IF".toList then setIfFlag st false else st
+  let skip := if name == "IF".toList then false else flag
+  if skip then .done { st := st }
+  else if !cond then .done { st := st }
+  else .body (setIfFlag st true)
+
 /-- `If.run_compile` up to the decision whether the body runs -/
 def ifPre (ctx : Ctx) (pos : Pos) (word : Str) (arg : Option Str) (st : St) : R BlockAct :=
   let name := upper word
-  let st := if assocHas st.env.temp ifSuccess then st else setIfFlag st false      -- mk_temp_var
+  let st := withFlag st
   if arg.isNone && name != "ELSE".toList then raise ctx pos st .invalidArguments
   else if arg.isSome && name == "ELSE".toList then raise ctx pos st .invalidArguments
-  else do
-    let cond ← if name != "ELSE".toList then do
-        let v ← evalIn ctx pos st (arg.getD [])
-        pure v.truthy
-      else pure true
-    let flag := ifFlag st
-    let st := if name == "IF".toList then setIfFlag st false else st
-    let skip := if name == "IF".toList then false else flag
-    if skip then .ok (.done { st := st })
-    else if !cond then .ok (.done { st := st })
-    else .ok (.body (setIfFlag st true))
+  else ifCond ctx pos name arg st >>= fun cond => .ok (ifDecide name st cond)
+
+/-- `Func.run_compile` -/
+def funcPre (ctx : Ctx) (pos : Pos) (arg : Option Str) (block : List Node) (st : St) : R BlockAct :=
+  let (fname, varStr) := breakArg (arg.getD [])
+  let params : List Str := match varStr with
+    | none => []
+    | some vs => if vs.isEmpty then [] else (splitChar ',' vs).map strip
+  if !isVar fname false then raise ctx pos st .unacceptableVarName
+  else if !params.all (fun p => isVar p false) then raise ctx pos st .unacceptableVarName
+  else .ok (.done { st := { st with env := { st.env with funcs := assocSet st.env.funcs fname ⟨params, block, ctx.file⟩ } } })
+
+/-- `Ignore.run_compile` -/
+def ignorePre (ctx : Ctx) (pos : Pos) (block : List Node) (st : St) : R BlockAct :=
+  match rawLines block with
+  | none => raise ctx pos st .general
+  | some ls => .ok (.done { st := st, out := ls })
+
+/-- `Repeat.run_compile` before the loop -/
+def repeatPre (ctx : Ctx) (pos : Pos) (arg : Option Str) (hasBlock : Bool) (st : St) : R BlockAct :=
+  let (var, countExpr) := parseLoopArg (arg.getD [])
+  if !hasBlock then
+    if var.isSome then raise ctx pos st .invalidArguments
+    else .ok (.done { st := st, out := ["REPEAT ".toList ++ countExpr] })
+  else
+    match var with
+    | some v => if !isVar v false then raise ctx pos st .unacceptableVarName
+                else .ok (.repeat var countExpr st)
+    | none => .ok (.repeat var countExpr st)
 
 /-- `BlockCommand.compile` and the part of `run_compile` of each block class that runs in the
     current stack -/
 def blockPre (ctx : Ctx) (c : ClsDesc) (word : Str) (line : Nat)
     (arg : Option Str) (block : List Node) (hasBlock : Bool) (st : St) : R BlockAct :=
   let pos : Pos := ⟨line, none⟩
-  if c.flipperOnly && !ctx.opts.flipper then raise ctx pos st .invalidCommand else
   let argPresent := match arg with | some a => !a.isEmpty | none => false
-  if argPresent && c.argReq == .notAllowed then raise ctx pos st .invalidArguments
+  let arg' := if c.strip then arg.map strip else arg
+  if c.flipperOnly && !ctx.opts.flipper then raise ctx pos st .invalidCommand
+  else if argPresent && c.argReq == .notAllowed then raise ctx pos st .invalidArguments
   else if !argPresent && c.argReq == .required then raise ctx pos st .invalidArguments
   else
-    let arg := if c.strip then arg.map strip else arg
     match c.cname with
-    | "If" => ifPre ctx pos word arg st
-    | "Func" =>
-      let (fname, varStr) := breakArg (arg.getD [])
-      let params : List Str := match varStr with
-        | none => []
-        | some vs => if vs.isEmpty then [] else (splitChar ',' vs).map strip
-      if !isVar fname false then raise ctx pos st .unacceptableVarName
-      else if !params.all (fun p => isVar p false) then raise ctx pos st .unacceptableVarName
-      else .ok (.done { st := { st with env := { st.env with funcs := assocSet st.env.funcs fname ⟨params, block, ctx.file⟩ } } })
-    | "Ignore" =>
-      match rawLines block with
-      | none => raise ctx pos st .general
-      | some ls => .ok (.done { st := st, out := ls })
-    | "Repeat" =>
-      let (var, countExpr) := parseLoopArg (arg.getD [])
-      if !hasBlock then
-        if var.isSome then raise ctx pos st .invalidArguments
-        else .ok (.done { st := st, out := ["REPEAT ".toList ++ countExpr] })
-      else
-        match var with
-        | some v => if !isVar v false then raise ctx pos st .unacceptableVarName
-                    else .ok (.repeat var countExpr st)
-        | none => .ok (.repeat var countExpr st)
-    | "While" =>
-      let (var, cond) := parseLoopArg (arg.getD [])
-      .ok (.while var cond st)
+    | "If" => ifPre ctx pos word arg' st
+    | "Func" => funcPre ctx pos arg' block st
+    | "Ignore" => ignorePre ctx pos block st
+    | "Repeat" => repeatPre ctx pos arg' hasBlock st
+    | "While" => .ok (.while (parseLoopArg (arg'.getD [])).1 (parseLoopArg (arg'.getD [])).2 st)
     | _ => .oom ("block command class not modelled: " ++ c.cname)
 
 /-- the part of a block command that creates stacks -/
